@@ -120,8 +120,8 @@ func (ctx *BrokerContext) Broker() {
 			case <-time.After(time.Second * ProxyTimeout):
 				// This snowflake is no longer available to serve clients.
 				ctx.snowflakeLock.Lock()
-				defer ctx.snowflakeLock.Unlock()
-				if snowflake.index != -1 {
+				claimed := snowflake.index == -1
+				if !claimed {
 					if request.natType == NATUnrestricted {
 						heap.Remove(ctx.snowflakes, snowflake.index)
 					} else {
@@ -129,6 +129,14 @@ func (ctx *BrokerContext) Broker() {
 					}
 					ctx.metrics.promMetrics.AvailableProxies.With(prometheus.Labels{"nat": request.natType, "type": request.proxyType}).Dec()
 					delete(ctx.idToSnowflake, snowflake.id)
+				}
+				ctx.snowflakeLock.Unlock()
+				if claimed {
+					// A client took this snowflake off the heap just before the
+					// timeout fired and is about to send its offer: pass it on,
+					// otherwise both the client and the proxy wait forever.
+					request.offerChannel <- <-snowflake.offerChannel
+				} else {
 					close(request.offerChannel)
 				}
 			}
